@@ -329,10 +329,22 @@ def norm_key(key):
     return tuple(out)
 
 
+def stacklist_keys(key):
+    """a uniform abstract list of integers used as an index is its stack view (an index tensor)"""
+    def conv(k):
+        if isinstance(k, StackList) and k.tuple_kind is None and k.views[0].rank == 1:
+            return k.views[0]
+        return k
+    if isinstance(key, tuple):
+        return tuple(conv(k) for k in key)
+    return conv(key)
+
+
 @lib('getitem')
 def _getitem(fr, base, key, site=None):
     ctx = fr.ctx
     if isinstance(base, Tn):
+        key = stacklist_keys(key)
         if is_basic_key(key):
             v = basic_index(base, norm_key(key), ctx, site=site)
             if v.rank == 0 and (base.lib == 'np' or ctx.safety):
@@ -352,11 +364,18 @@ def _getitem(fr, base, key, site=None):
             ctx.may_raise(base.count <= 0, 'IndexError')
             return ListItemProbe(base)
         raise Unsupported("indexing an abstract list")
+    if isinstance(base, StackList) and isinstance(key, slice):
+        # a slice of a uniform abstract list is the list of the sliced views
+        views = [basic_index(v, (key,), ctx) for v in base.views]
+        return StackList(views[0].shape[0], views, base.tuple_kind)
     if isinstance(base, StackList):
         k = O.simp(key)
         ctx.may_raise(Or(k < -base.count, k >= base.count) if O.any_sym(k, base.count) else (k < -base.count or k >= base.count), 'IndexError')
-        kk = ite(k < 0, k + base.count, k) if O.is_sym(k) or (isinstance(k, int) and k < 0) else k
-        items = [basic_index(v, (kk,), None) for v in base.views]
+        if O.is_sym(k) and ctx.entails(k >= 0):
+            items = [basic_index(v, (k,), None, wrap=False) for v in base.views]
+        else:
+            kk = ite(k < 0, k + base.count, k) if O.is_sym(k) or (isinstance(k, int) and k < 0) else k
+            items = [basic_index(v, (kk,), None) for v in base.views]
         if base.tuple_kind is None:
             return items[0]
         return tuple(items)
@@ -446,6 +465,18 @@ def advanced_get(fr, base, key, site=None):
                     ctx.oblige("index-safety@%s" % (site,), Not(bad), 'index')
                 else:
                     ctx.may_raise(bad, 'IndexError', site)
+    # negative indices wrap; where the path condition excludes them the wrap is dropped (same value)
+    nonneg = []
+    for q, s_, L in zip(advpos, idx_snaps, dims_of_adv):
+        ok = False
+        if not isinstance(ctx, NullCtx):
+            r = O.fresh_int('r')
+            v0 = s_(r)
+            try:
+                ok = (not O.is_sym(v0) and v0 >= 0) or (O.is_sym(v0) and not ctx.feasible(And(in_range_(r, ashape), v0 < 0)))
+            except Exception:
+                ok = False
+        nonneg.append(ok)
 
     def content(*idx):
         src = [None] * v.rank
@@ -455,9 +486,12 @@ def advanced_get(fr, base, key, site=None):
                 a = i
             else:
                 src[d] = i
-        for q, s_, L in zip(advpos, idx_snaps, dims_of_adv):
+        for (q, s_, L), nn in zip(zip(advpos, idx_snaps, dims_of_adv), nonneg):
             val = s_(a)
-            src[q] = ite(val < 0, val + L, val) if O.is_sym(val) else (val + L if val < 0 else val)
+            if nn:
+                src[q] = val
+            else:
+                src[q] = ite(val < 0, val + L, val) if O.is_sym(val) else (val + L if val < 0 else val)
         return snap(*src)
     return Tn.fresh(shape, content, base.kind, lib=base.lib, dtype=base.dtype)
 
@@ -769,7 +803,11 @@ def _cat(fr, ts, dim=0, axis=None, **kw):
         for k in range(len(ts) - 2, -1, -1):
             out = ite(i < offs[k + 1], at(k), out)
         return out
-    return Tn.fresh(shape, content, result_kind(*ts), lib=ts[0].lib)
+    res = Tn.fresh(shape, content, result_kind(*ts), lib=ts[0].lib)
+    if d == 0:
+        # the pieces (entry snapshots) are remembered: halves of [a; b] can be taken back structurally
+        res.cat_parts = [(Tn.fresh(list(t.shape), sn, t.kind, lib=t.lib), sz) for t, sn, sz in zip(ts, snaps, sizes)]
+    return res
 
 
 @lib('torch.vstack')
@@ -1193,11 +1231,15 @@ def Sum(lo, hi, f, kind='int'):
                 v = ite(v, 1, 0)
             out = out + v
         return out
+    # the summation variable is fresh while the summand is built (a summand may itself contain sums
+    # whose summands mention this variable) and is renamed to the canonical `sk` in the template
+    kf = z3.Int(O.fresh_name('sk'))
     k = z3.Int('sk')
-    body = f(k)
+    body = f(kf)
     if is_boolish(body):
         body = ite(body, 1, 0)
     body = O.to_z3(body)
+    body = z3.substitute(body, (kf, k))
     if kind == 'real' and z3.is_int(body):
         body = z3.ToReal(body)
     if kind == 'int' and z3.is_real(body):
@@ -1619,6 +1661,9 @@ def _list(fr, x=None):
         return x
     if isinstance(x, ZipStar):
         return x
+    if isinstance(x, Tn) and x.rank >= 1 and not O.is_conc(x.shape[0]):
+        snap = x.snapshot()
+        return StackList(x.shape[0], [Tn.fresh(list(x.shape), snap, x.kind, lib=x.lib, dtype=x.dtype)])
     seq = fr.as_sequence(x)
     if isinstance(seq, list):
         return seq
@@ -2098,6 +2143,28 @@ def _sl_append(fr, lst, x):
     lst.count = lst.count + 1
 
 
+@method('StackList.extend')
+def _sl_extend(fr, lst, xs):
+    ctx = fr.ctx
+    if isinstance(xs, Tn):
+        xs = _list(fr, xs)
+    if isinstance(xs, list):
+        for x in xs:
+            _sl_append(fr, lst, x)
+        return
+    if not isinstance(xs, StackList) or xs.tuple_kind != lst.tuple_kind or len(xs.views) != len(lst.views):
+        raise Unsupported("extend of a uniform abstract list with %r" % (type(xs),))
+    new = []
+    for v, t in zip(lst.views, xs.views):
+        if t.rank != v.rank:
+            raise Unsupported("stack-list item rank")
+        for a, b in zip(v.shape[1:], t.shape[1:]):
+            require_eq(ctx, a, b)
+        new.append(_cat(fr, [v, t], 0))
+    lst.views = new
+    lst.count = lst.count + xs.count
+
+
 @lib('abstract_comprehension')
 def _abstract_comprehension(fr, frame, elt, gen, seq):
     """[elt for target in <abstract sequence>] where elt evaluates to a tensor: the result is the
@@ -2105,6 +2172,11 @@ def _abstract_comprehension(fr, frame, elt, gen, seq):
     if seq.ghost is not None or seq.has is not None:
         raise Unsupported("comprehension over a ghosted iterator")
     j = z3.Int(O.fresh_name('cj'))
+    ctx = fr.ctx
+    if not ctx.branch(seq.count > 0):
+        return []
+    # j is a fresh name for an arbitrary position of the (non-empty) sequence
+    ctx.assume(And(0 <= j, j < seq.count))
     saved = dict(frame.env)
     try:
         frame.assign(gen.target, seq.item(j))
@@ -2126,7 +2198,13 @@ def _abstract_comprehension(fr, frame, elt, gen, seq):
     shape = []
     for d in v.shape:
         if O.is_sym(d) and j in _vars_of(d):
-            raise Unsupported("abstract comprehension: item shape depends on the index")
+            # a dimension that mentions the position but has the same value at every position
+            for cand in (1, 0, 2, O.simp(z3.substitute(O.to_z3(d), (j, z3.IntVal(0))))):
+                if ctx.entails(O.eq(d, cand)):
+                    d = cand
+                    break
+            else:
+                raise Unsupported("abstract comprehension: item shape depends on the index")
         shape.append(d)
     view = Tn.fresh([seq.count] + shape, content, v.kind, lib=v.lib)
     return StackList(seq.count, [view])
